@@ -425,6 +425,31 @@ class ExtrasMixin:
         x = self.num(v)
         return VInt(z3.If(x >= 0, z3.ToInt(x), -z3.ToInt(-x)))
 
+    def spec_nth_key(self, node, frame):
+        d = self.eval(node.args[0], frame)
+        j = self.eval(node.args[1], frame)
+        r = self.run.rec(d.oid)
+        ks = z3.Array(f"{r.sym}#order", z3.IntSort(), self.sort_of(r.ktype))
+        # trusted structural fact: the j-th key of a dict (0 <= j < len) is a key of the dict
+        base = self.run.old_heap.get(self.run.base_oid(d.oid)) if self.run.old_heap is not None else None
+        dom0 = z3.Array(f"{r.sym}#dom", ks.sort().range(), z3.BoolSort())
+        sz0 = z3.Int(f"{r.sym}#size")
+        self.run.assume(z3.Implies(z3.And(j.t >= 0, j.t < sz0), z3.Select(dom0, z3.Select(ks, j.t))), persist=True)
+        return self.wrap(r.ktype, z3.Select(ks, j.t))
+
+    def spec_contract_arg(self, node, frame):
+        """i-th argument (after self) of the last call to a callee used through its contract"""
+        suf = node.args[0].value
+        i = node.args[1].value
+        for c in reversed(self.run.contract_calls):
+            if c["name"].endswith(suf):
+                return c["args"][i] if len(c.get("args", [])) > i else NONE
+        return NONE
+
+    def spec_contract_calls(self, node, frame):
+        suf = node.args[0].value
+        return VInt(len([c for c in self.run.contract_calls if c["name"].endswith(suf)]))
+
     def spec_nth_value(self, node, frame):
         """value stored under the j-th key (in iteration order) of a symbolic dict"""
         d = self.eval(node.args[0], frame)
